@@ -170,7 +170,7 @@ def replay_in_fresh_process(prop, path):
     """-> (reproduced: bool, output)"""
     env = dict(os.environ)
     env['PYTHONHASHSEED'] = '0'
-    p = subprocess.run([sys.executable, os.path.join(VERIF, 'check'), prop.id, '--replay', path],
+    p = subprocess.run([os.path.join(VERIF, 'check'), prop.id, '--replay', path],
                        capture_output=True, text=True, env=env, timeout=600)
     return p.returncode == 1 and 'REPRODUCED' in p.stdout, p.stdout + p.stderr
 
@@ -313,13 +313,17 @@ def run_check(prop, tier, verif_seed, n_runs=None, workers=None, write_evidence=
 
     print(f"{prop.id} tier={tier} seed={verif_seed} runs={n} ok={counts['ok']} "
           f"violations={n_viol} known={sum(c for _, c in known_hits.values())} aborted={counts['aborted']} "
-          f"timeouts={counts['timeout']} distinct={len(digests)} nontrivial={len(nontrivial_digests)} "
+          f"timeouts={counts['timeout']} harness_errors={counts['harness_error']} distinct={len(digests)} nontrivial={len(nontrivial_digests)} "
           f"wall={wall_s:.1f}s")
+    for h in harness_errors[:5]:
+        print('HARNESS-ERROR', h)
+    if os.environ.get('SIMV_DEBUG'):
+        for r in results:
+            if r['status'] in ('aborted', 'timeout'):
+                print('DEBUG', r['index'], r['status'], (r.get('note') or '')[:300])
     if reported:
         return 1
     if harness_errors or counts['timeout'] or counts['harness_error']:
-        for h in harness_errors[:5]:
-            print('HARNESS-ERROR', h)
         return 3
     if len(nontrivial_digests) < 2:
         print('HARNESS-ERROR fewer than 2 distinct non-trivial runs')
